@@ -259,9 +259,13 @@ func TestVerif_C15_Rest(t *testing.T) {
 			if !ok && definite && expectValid && interrupted {
 				reg := rawRegistry()
 				stale := strings.Contains(reg, `"previous_version"`) && kit.Known("C15", vfC15SigStalePrev)
-				marker := strings.Contains(reg, `"0-0"`) && kit.Known("C15", vfC15SigDeleteMarker)
+				marker := strings.Contains(reg, `"0-0"`) && vfC15OpenDeleteMarkerSig() != ""
 				if status == 409 && (stale || marker) {
-					rec.Excluded(map[bool]string{true: vfC15SigStalePrev, false: vfC15SigDeleteMarker}[stale])
+					if stale {
+						rec.Excluded(vfC15SigStalePrev)
+					} else {
+						rec.Excluded(vfC15OpenDeleteMarkerSig())
+					}
 					return
 				}
 				fail("%s %s of %s is valid but node %s answered %d after an interrupted change", kind, db, collsOf(set), node, status)
